@@ -201,4 +201,16 @@ def expectDiaJ (j : Json) : Except String Json := do
   let st ← diaOf j "state"
   pure <| Json.mkObj [("value", ciJ (if st.cols = 1 then expectDiaKet ciConj o st else expectDiaDm o st))]
 
+/-- {op, state} -> `expect_csr`: the ket loop when the state has one column, the density-matrix loop otherwise -/
+def expectCsrJ (j : Json) : Except String Json := do
+  let o ← csrOf j "op"
+  let st ← csrOf j "state"
+  pure <| Json.mkObj [("value", ciJ (if st.cols = 1 then expectCsrKet ciConj o st else expectCsrDm o st))]
+
+/-- {op, state, n} -> `expect_super_csr` -/
+def expectSuperCsrJ (j : Json) : Except String Json := do
+  let o ← csrOf j "op"
+  let st ← csrOf j "state"
+  pure <| Json.mkObj [("value", ciJ (expectSuperCsr (← getNat j "n") o st))]
+
 end Qv.Drv.C01
